@@ -1,6 +1,7 @@
 \* reference configuration for the Prometheus selector (tools/props/c17.py generates the ones it runs);
 \* "INVARIANTS MechEqDef" is the property itself
-SPECIFICATION Spec
+INIT MCInit
+NEXT MCNext
 CONSTANTS
   KV = {"n1", "n2"}
   GL = {}
